@@ -198,6 +198,8 @@ class Run:
             for v in r["violations"]:
                 v = dict(v)
                 v["family"] = family
+                if canon(v["case"]) != canon(cases[i]):
+                    v["chunk_case"] = cases[i]  # the whole operation sequence the worker ran (history-dependent failures)
                 self.violations.append(v)
                 fam["violations"] += 1
         return results
@@ -255,6 +257,15 @@ class Run:
             }
             path.write_text(json.dumps(rec, indent=1, sort_keys=True, default=_json_default))
             ok, why = confirm_replay(self.prop, path, v["kind"])
+            if not ok and v.get("chunk_case") is not None:
+                # the minimal case alone does not fail: the failure needs the history.  Replay the whole operation
+                # sequence of the chunk in a fresh interpreter; if that fails the same way, the chunk is the artefact.
+                rec["case"] = v["chunk_case"]
+                rec["history_dependent"] = True
+                rec["minimal_case_that_needs_history"] = v["case"]
+                path.write_text(json.dumps(rec, indent=1, sort_keys=True, default=_json_default))
+                ok, why2 = confirm_replay(self.prop, path, v["kind"])
+                why = f"{why}; with history: {why2}"
             if not ok:
                 lines.append(f"HARNESS-ERROR nondeterministic: {why} ({path})")
                 status = 2
@@ -383,8 +394,10 @@ def do_replay(prop, modname, path):
     if not vs:
         print(f"REPLAY-OK property={prop} case no longer violates")
         return 0
-    for v in vs:
+    for v in vs[:8]:
         print(f"REPLAY-VIOLATION kind={v['kind']} attrs={canon(v['attrs'])} :: {v['msg'][:500]}")
+    if len(vs) > 8:
+        print(f"... {len(vs) - 8} more violations in this replay")
     known = load_known(prop)
     if all(match_known(known, v) for v in vs):
         print(f"KNOWN-FINDING: property={prop} (replayed case matches a listed finding)")
